@@ -365,7 +365,7 @@ def run_session(exe, mx, sess, work, idx):
             if op == "flushwait":
                 if kcur == 0 and pending_flush:
                     continue          # the flush thread is parked and there is nobody to relieve it yet
-                out = st.cmd("flushwait 30000 %d" % kcur, timeout=90)
+                out = st.cmd("flushwait 20000 %d" % kcur, timeout=60)
                 if out == "FLUSHWAIT deadlock":
                     if kcur == 0:
                         pending_flush = True      # no compaction thread exists yet: not a verdict
@@ -380,7 +380,7 @@ def run_session(exe, mx, sess, work, idx):
                 st.cmd(op)
                 kcur += int(op.split()[1])
             elif op == "settle":
-                out = st.cmd("watch 30000 %d" % kcur, timeout=90)
+                out = st.cmd("watch 20000 %d" % kcur, timeout=60)
                 v = out.split()[1] if out.startswith("WATCH") else out
                 if v == "deadlock":
                     verdict = "deadlock"
@@ -415,7 +415,7 @@ def run_session(exe, mx, sess, work, idx):
                         break
         k = kcur
         if verdict is None:
-            out = st.cmd("watch 30000 %d" % k, timeout=90)
+            out = st.cmd("watch 20000 %d" % k, timeout=60)
             verdict = out.split()[1] if out.startswith("WATCH") else out
         res["verdict"] = verdict
         peek = st.cmd("peek") if verdict in ("deadlock", "idle") else "PEEK ?"
@@ -439,15 +439,22 @@ def run_session(exe, mx, sess, work, idx):
 
         md.cmd("I %s | %s" % (",".join(str(x) for x in sess["opts"]), "/" * 15))
         ok = True
-        for ln in tr:
-            if not ln.startswith("T "):
-                continue
+        tlines = [ln for ln in tr if ln.startswith("T ")]
+        for n_ev, ln in enumerate(tlines):
             ws = ln[2:].split(" ")
             ev = ws[0]
             res["events"] += 1
             if ev == "wake":
                 res["spurious"] += ws[3] == "spurious"
                 continue
+            if ev == "notify":
+                continue
+            if ev in ("ingest", "apply"):
+                # the notify_all belongs to the same critical section: it is the next event
+                want = "notify %s %s" % (ws[1], "compact" if ev == "ingest" else "stall")
+                nxt = tlines[n_ev + 1][2:] if n_ev + 1 < len(tlines) else ""
+                if nxt != want:
+                    res["problems"].append({"kind": "property", "what": "%s was not followed by notify_all on `%s` in its critical section (a sleeper would miss the event it waits for)" % (ev, want.split()[-1]), "event": ln[:200], "next": nxt[:100]})
             if ev == "select":
                 res["selects"] += 1
                 m = md.cmd("E select none" if ws[2] == "none" else "E select " + core(ws[2:]))
@@ -552,6 +559,8 @@ def run(chk):
     if not okh:
         raise RuntimeError("harness build failed (does /repo still compile?):\n" + outh[-3000:])
 
+    # self-test only: judge a saved mutant binary without keeping a mutation applied in /repo
+    hxbin = os.environ.get("C20_HARNESS_OVERRIDE", hxbin)
     quick = chk.tier == "quick"
     rng = vlib.Rng(chk.seed * 1000003 + 20)
     problems = []          # dicts: kind in property|corr ; with a replay
@@ -584,11 +593,11 @@ def run(chk):
             o, g, lv = tree_from_line(c["line"])
             cases.append(("corpus:" + c["_file"], o, g, lv))
     ncorpus = len(cases)
-    small, small_total = enum_small(rng.fork(), 12000 if quick else 400000)
+    small, small_total = enum_small(rng.fork(), 30000 if quick else 600000)
     for o, g, lv in small:
         cases.append(("small", o, g, lv))
     nsmall = len(small)
-    ngen = 25000 if quick else 400000
+    ngen = 60000 if quick else 1200000
     gstats = {}
     grng = rng.fork()
     for i in range(ngen):
@@ -671,7 +680,7 @@ def run(chk):
 
     # ---- threaded sessions
     t0 = time.time()
-    nsess = 120 if quick else 1500
+    nsess = 250 if quick else 3000
     srng = rng.fork()
     sess_stats = {"sessions": 0, "verdicts": {}, "tags": {}, "events": 0, "selects": 0, "applies": 0, "ingests": 0, "parks": 0,
                   "spurious_wakeups": 0, "risk_skips": 0, "deadlocks_known": 0, "latent_stalls_known": 0, "ops": 0, "threadexits": 0}
@@ -681,8 +690,14 @@ def run(chk):
             sessions.append(({"tag": "corpus:" + c["_file"], "opts": c["opts"], "k": c["k"], "script": c["script"]}, c.get("expect")))
     for i in range(nsess):
         sessions.append((gen_session(srng, chk.tier), None))
+    n_hangs = 0
     for idx, (sess, expect) in enumerate(sessions):
+        if n_hangs >= 2:
+            # every further session would wait out its time-outs too; two witnesses are enough
+            sess_stats["aborted_after_hangs"] = len(sessions) - idx
+            break
         r = run_session(hxbin, mx, sess, chk.work, idx)
+        n_hangs += any(p["kind"] == "hang" for p in r["problems"]) or r["verdict"] in ("timeout", "HANG")
         sess_stats["sessions"] += 1
         sess_stats["verdicts"][r["verdict"]] = sess_stats["verdicts"].get(r["verdict"], 0) + 1
         t = sess["tag"].split(":")[0] if sess["tag"].startswith("corpus") else sess["tag"]
